@@ -1,7 +1,18 @@
-"""MANIFEST level per property + free-text explanation that goes into the evidence."""
+"""Per-property registration data: MANIFEST level, technique, explanation (goes into evidence), assumptions, and the
+reason text for properties that are not claimed."""
+
 LEVEL = {
-    "C03": "proof",
+    "C03": "proof", "C04": "proof", "C13": "proof", "C14": "proof", "C12": "other",
 }
+
+TECHNIQUE = {
+    "C03": "contract-based deductive verification: own VC generator d3vc (symbolic execution of the real source) + z3/cvc5",
+    "C04": "contract-based deductive verification: d3vc + z3/cvc5, Cauchy-Schwarz proof steps, local-frame witnesses",
+    "C13": "contract-based deductive verification: d3vc + z3/cvc5 (path-wise: result[i] <=> membership predicate)",
+    "C14": "contract-based deductive verification: d3vc + z3/cvc5; numpy view/contiguity flags as layout type-state",
+    "C12": "contract-based deductive verification (pose algebra, frame-quantified contracts); iterative queries not decided",
+}
+
 EXPLANATION = {
     "C03": "Every public support_function / first_vertex / center method of the closed-form collider classes is executed "
            "symbolically from its source text (including the geometry.support_function_* kernels, utils.transform_point, "
@@ -9,8 +20,36 @@ EXPLANATION = {
            "taken from the property: result is a member of the shape (membership predicate of d3vc/spec.py, local-frame "
            "definition from the class docstring) and no Skolem point of the shape projects further on d. Poses are universally "
            "quantified rotations; polynomials are kept in normal form modulo the Groebner basis of SO(3).",
+    "C04": "aabb() of the eight closed-form collider classes (which call the free functions of distance3d.containment): per axis, "
+           "every Skolem point of the shape lies within the bounds (enclosure) and each of the six bounds is attained by a witness "
+           "point of the shape given in the local frame (tightness). Ellipsoid: genuine defect, see known_findings.json.",
+    "C13": "points_in_<shape> on a batch of two arbitrary points: on every path of the numpy code the boolean returned for point i "
+           "is True only if the membership predicate holds and False only if it does not (for the capsule the axis parameter is "
+           "Skolemised; for the disk the band form required by the property is used).",
+    "C14": "For every class with update_pose: an object built at an arbitrary pose T0 and moved with update_pose(T) answers "
+           "support_function, aabb, center, first_vertex, collider2origin exactly like an object constructed at T, and every call "
+           "of an eagerly typed numba kernel receives arrays whose rank/contiguity (real numpy view semantics) match its signature.",
+    "C12": "Pose algebra of distance3d.utils (inverse, batch/single consistency, adjoint blocks) as polynomial identities modulo the "
+           "SO(3) ideal; rigid-motion behaviour of the closed-form support/containment functions follows from their C03/C13 "
+           "contracts, which are quantified over all poses. Symmetry/invariance of iterative queries (GJK, EPA, MPR) is not decided.",
 }
+
 EXTRA_ASSUMPTIONS = {
-    "C03": ["MeshGraph hill climbing is proved relative to an explicit mesh-convexity precondition (see contract doc); "
-            "ConvexHullVertices is verified for symbolic vertex coordinates with a fixed number of vertices (4 and 8)"],
+    "C03": ["ConvexHullVertices/Box vertex support and MeshGraph hill climbing are covered by separate contracts (see evidence) "
+            "with fixed vertex counts / an explicit mesh-convexity precondition"],
+    "C04": ["tolerance 1e-9*L of the statement is not consumed: the obligations are exact in real arithmetic"],
+    "C13": ["row-parametricity of the numpy operations for batch sizes other than 2 (the code has no cross-row data flow)"],
+    "C14": ["a pose taken out of a C-contiguous (n,4,4) stack has the same layout as a fresh C-contiguous (4,4) array"],
+    "C12": [],
 }
+
+LEVEL_NOTE = {
+    "C03": "float64 as reals; d3vc engine, numpy model and spec library trusted (mitigated by canaries, covers and native execution "
+           "of every contract on the JIT-compiled code); solvers trusted for unsat",
+    "C04": "as C03; Ellipsoid.aabb is a recorded known finding (genuine defect, pinned test asserts the wrong numbers)",
+    "C13": "as C03; batch size 2 generalised by row-parametricity of the numpy code; convex mesh for a fixed topology",
+    "C14": "as C03; layout model = real numpy flags on object arrays; numba dispatch assumed to follow its declared signatures",
+    "C12": "partial: closed-form part proved, iterative queries only through the bounded tiers of C01/C02/C07-C09",
+}
+
+NOT_APPLICABLE = {}
